@@ -6,6 +6,7 @@ import AsModel.Runtime.SetMatch
 import AsModel.Runtime.Offset
 import AsModel.Runtime.SrcPath
 import AsModel.Runtime.Label
+import AsModel.Runtime.Cache
 import AsModel.SExp
 import AsModel.Render
 import AsModel.RustPrims
@@ -170,6 +171,38 @@ def answer (line : String) : String :=
     match unhex src, a.toNat?, b.toNat? with
     | some s, some a, some b => if rendererOk s.toList a b then "ok" else "panic"
     | _, _, _ => "bad-op"
+  -- cachesched <paths: 0.1.0> <fs: per path content id, 0 = unreadable: 5.0.7> <warm: 1.0.0> <schedule: 0.1.1.0>
+  -- the transition system of cached_source under a schedule: after every step the thread's program counter
+  -- (or `blocked` / `finished`), then every thread's result and the final cache
+  | ["cachesched", paths, fs, warm, sched] =>
+    let nums (x : String) : List Nat := if x == "-" then [] else (x.splitOn ".").filterMap String.toNat?
+    let ps := nums paths
+    let fsl := nums fs
+    let wl := nums warm
+    let fsf : FilePath → Option Content := fun p => match fsl[p]? with | some 0 => none | some c => some c | none => none
+    let cache0 : FilePath → Option Content := fun p => if wl[p]? == some 1 then fsf p else none
+    let pcName : Pc → String
+      | .wantRead => "wantRead" | .reading => "reading" | .fsRead => "fsRead" | .wantWrite => "wantWrite"
+      | .writing => "writing" | .returning => "returning" | .done => "done"
+    let s0 : CState := { cache := cache0, threads := ps.map fun p => ⟨p, .wantRead, 0, none⟩ }
+    let rec go (s : CState) (sc : List Nat) (acc : List String) : CState × List String :=
+      match sc with
+      | [] => (s, acc.reverse)
+      | i :: rest =>
+        match s.threads[i]? with
+        | none => go s rest ("?" :: acc)
+        | some t =>
+          if t.pc == .done then go s rest ("finished" :: acc)
+          else match step fsf s i with
+            | none => go s rest ("blocked" :: acc)
+            | some s' =>
+              let pc := match s'.threads[i]? with | some t' => pcName t'.pc | none => "?"
+              go s' rest (pc :: acc)
+    let (sf, obs) := go s0 (nums sched) []
+    let res := sf.threads.map fun t => match t.result with
+      | none => "unfinished" | some none => "none" | some (some c) => toString c
+    let cache := (List.range fsl.length).map fun p => match sf.cache p with | some c => toString c | none => "-"
+    s!"{" ".intercalate obs}|{" ".intercalate res}|{" ".intercalate cache}"
   | ["resolve", d, r] =>
     let c := AsModel.Generated.resolve AsModel.Generated.wiring ⟨d == "1", r == "1"⟩
     s!"runtime={c.runtimeRegex} macro={c.macroRegex}"
